@@ -54,6 +54,24 @@ def reach_under(cfg, start, targets, atom_eval, stop=()):
     return hit
 
 
+def _ladder_loops(func, param):
+    """for loops over the ladder parameter: `for x in ladder` or `for i, x in enumerate(ladder)`"""
+    out = []
+    for lp in walk_nodes(func.node.body, ast.For):
+        it = lp.iter
+        if utext(it) == param or (isinstance(it, ast.Call) and call_name(it) == "enumerate" and it.args
+                                  and utext(it.args[0]) == param):
+            out.append(lp)
+    return out
+
+
+def _level_var(lp):
+    t = lp.target
+    if isinstance(t, ast.Tuple):
+        t = t.elts[-1]
+    return utext(t)
+
+
 def run(ctx, rep):
     prog, res = ctx.prog, ctx.res
     so = prog.cls("SimulatedOrder")
@@ -61,10 +79,10 @@ def run(ctx, rep):
     # ------------------------------------------------------------------ R1 crossing match
     pm = prog.own_method("SimulatedOrder", "_process_price_matched")
     cfg = ctx.cfg(pm)
-    loops = [lp for lp in walk_nodes(pm.node.body, ast.For) if utext(lp.iter) == pm.params[4]]
+    loops = _ladder_loops(pm, pm.params[4])
     if len(loops) != 1:
         raise AnalysisError("_process_price_matched: loop over the ladder not found")
-    lv = utext(loops[0].target)
+    lv = _level_var(loops[0])
     head = [n for n in cfg.live_nodes() if n.kind == "for" and n.ast is loops[0]][0]
     start = [m for l, m in head.succ if l == "iter"][0]
     ups = [n for n, c in node_calls(cfg, "_update_matched")]
@@ -104,7 +122,7 @@ def run(ctx, rep):
     # VWAP sweep
     vw = prog.own_method("SimulatedOrder", "_process_price_matched_vwap")
     cfgv = ctx.cfg(vw)
-    loops = [lp for lp in walk_nodes(vw.node.body, ast.For) if utext(lp.iter) == vw.params[4]]
+    loops = _ladder_loops(vw, vw.params[4])
     if len(loops) != 1:
         raise AnalysisError("_process_price_matched_vwap: loop over the ladder not found")
     headv = [n for n in cfgv.live_nodes() if n.kind == "for" and n.ast is loops[0]][0]
@@ -182,6 +200,19 @@ def run(ctx, rep):
                                "SimulatedOrder._process_price_matched", "SimulatedOrder._process_price_matched_vwap",
                                "SimulatedOrder._process_sp"}, "R1", "fill sites are among the five known ones (SP reconciliation is the named exception)",
               None, None, str(callers))
+
+    # the book an order is matched against is its own runner's: selection AND handicap
+    gr = prog.own_method("SimulatedOrder", "_get_runner")
+    dcs = walk_nodes(gr.node.body, ast.DictComp)
+    good = len(dcs) == 1 and utext(dcs[0].key) == "(runner.selection_id, runner.handicap)" and utext(dcs[0].value) == "runner" \
+        and utext(dcs[0].generators[0].iter) == "%s.runners" % gr.params[1] and not dcs[0].generators[0].ifs
+    rets = [r for r in walk_nodes(gr.node.body, ast.Return) if r.value is not None]
+    good = good and len(rets) == 1 and isinstance(rets[0].value, ast.Call) and call_name(rets[0].value) == "get" \
+        and utext(rets[0].value.args[0]) == "(self.order.selection_id, self.order.handicap)"
+    rep.check(good, "R1", key(gr, None, "an order is matched against the book of its own runner (selection and handicap)"), gr, None,
+              "on markets with handicap lines the same selection id appears once per line")
+    for cs in res.call_sites_of(gr):
+        rep.check(utext(cs.node.args[0]) in ("market_book",), "R1", key(cs.func, cs.node, "runner taken from the book being matched"), cs.func, cs.node)
 
     # ------------------------------------------------------------------ R2 fill-or-kill never rests
     fok = [n for n in cfgp.live_nodes() if n.kind == "cond" and utext(n.exprs[0]) == "is_fill_or_kill_order"
